@@ -89,6 +89,8 @@ const (
 	FQueryCard    = "query_repeated_or_optional"
 	FPartialConfig = "methods_without_path_config"
 	FSharedMethodNames = "method_names_shared_across_services"
+	FHeaderDeprecated = "header_marked_deprecated"
+	FSharedResp   = "response_message_shared_across_services"
 	FInt64Number  = "ann_int64_number"
 	FEnumValue    = "ann_enum_value"
 	FEnumNumber   = "ann_enum_number"
@@ -119,7 +121,7 @@ var SafeFeatures = []string{FBasePath, FPathVars, FQuery, FQueryOnBody, FHeaders
 	FEnum, FMap, FOneof, FOptional, FRepeated, FTimestamp, FBytes, FRules, FCustomError, FAllKinds, FMultiService, FNameShapes, FSharedPath, FSharedReq}
 
 // LateFeatures are drawn from the side stream.
-var LateFeatures = []string{FQueryCard, FPartialConfig, FSharedMethodNames}
+var LateFeatures = []string{FQueryCard, FPartialConfig, FSharedMethodNames, FHeaderDeprecated, FSharedResp}
 
 var AnnotationFeatures = []string{FInt64Number, FEnumValue, FEnumNumber, FNullable, FEmptyBehav, FTsFormat, FBytesEnc, FFlatten, FOneofDisc, FUnwrap}
 
@@ -150,6 +152,7 @@ type g struct {
 	svcHdr   map[string]*spec.Header
 	lastMethHdr map[string]string
 	sharedReqDone map[string]bool
+	sharedResp, sharedRespSvc string // FSharedResp: first response type and the service that declared it
 	prevPath    map[string]*sharedPath // per service: last explicit path and its variables
 }
 
@@ -439,6 +442,9 @@ func (x *g) bodyField(m *spec.Message, taken map[string]bool, num int32) *spec.F
 		switch f.Kind {
 		case "string":
 			f.Examples = []string{"ex-a", "ex b", "é"}
+			if x.r2.chance(1, 2) {
+				f.Examples = []string{", ", "Re: ", "  indented", "\ttab"} // surrounding whitespace is part of the value
+			}
 		case "int32":
 			f.Examples = pick(x.r, [][]string{{"1", "2", "3"}, {"-7"}, {"12", "not-a-number"}})
 		case "int64":
@@ -493,6 +499,9 @@ var headerNames = []string{"X-API-Key", "X-Request-ID", "X-Tenant", "Authorizati
 
 func (x *g) header(name string) *spec.Header {
 	h := &spec.Header{Name: name, Required: x.r.chance(2, 3)}
+	if x.has(FHeaderDeprecated) && x.r2.chance(1, 3) {
+		h.Deprecated = true // deprecated headers are still enforced by the servers
+	}
 	h.Type = pick(x.r, headerTypes)
 	if h.Type == "" || h.Type == "string" {
 		h.Format = pick(x.r, headerFormats)
@@ -907,6 +916,14 @@ func (x *g) method(s *spec.Service, name string, idx int, usedRoutes map[string]
 			m.In = x.fq(pick(x.r, x.annMsgs))
 		}
 	}
+	// a response message used by methods of several services (a common Status / Page type)
+	if x.has(FSharedResp) {
+		if x.sharedResp != "" && x.sharedRespSvc != s.Name && x.r2.chance(1, 2) {
+			m.Out = x.sharedResp
+		} else if x.sharedResp == "" {
+			x.sharedResp, x.sharedRespSvc = m.Out, s.Name
+		}
+	}
 	s.Methods = append(s.Methods, m)
 }
 
@@ -1076,6 +1093,9 @@ func (x *g) mockSafeField(taken map[string]bool, num int32, depth int) *spec.Fie
 		switch f.Kind {
 		case "string":
 			f.Examples = pick(x.r, [][]string{{"alpha", "beta", "gamma"}, {"only"}, {"é", "x y", "a-b"}})
+			if x.r2.chance(1, 3) {
+				f.Examples = []string{" padded ", "Re: ", "trailing  "} // surrounding whitespace is part of the value
+			}
 		case "int64":
 			f.Examples = pick(x.r, [][]string{{"1", "2", "4294967296123"}, {"-7", "-9007199254740993"}, {"9007199254740993", "0"}, {"12", "not-a-number"}})
 		case "bool":
